@@ -187,7 +187,12 @@ EXTRA_EVALS = {}
 
 def failure_tags(name, sc, impl, k):
     """Tags identifying the specific history a monitor failure is about (matched against known_findings.json)."""
-    return [name]
+    tags = [name]
+    if name == "c13-shutdown-inproc":
+        # the monitor judges exactly one history: shutdown() called from inside the processor, the Deferred that
+        # processor call returned is cancelled by the shutdown
+        tags.append("F26-shutdown-inside-processor-cancels-its-deferred")
+    return tags
 
 
 def check_batch(pid, scs, res, names, do_count=True):
